@@ -64,10 +64,14 @@ def f_svarint(field, n):
     return key(field, VARINT) + svarint(n)
 
 
+PAD_LEN = [0]        # > 0: lengths of length-delimited records are written as varints of exactly that many bytes
+
+
 def f_bytes(field, b):
     if isinstance(b, str):
         b = b.encode("utf-8")
-    return key(field, LEN) + varint(len(b)) + bytes(b)
+    n = varint_padded(len(b), PAD_LEN[0]) if PAD_LEN[0] else varint(len(b))
+    return key(field, LEN) + n + bytes(b)
 
 
 def f_fixed32(field, n):
